@@ -145,7 +145,7 @@ Print Assumptions legacy_lexer_refuted.
 Theorem time_date_roundtrip : forall (to_civil : Z -> civil) (of_civil : Z -> Z -> Z -> Z -> Z -> Z -> Z),
   (forall t, let c := to_civil t in
      of_civil (c_year c) (c_month c) (c_day c) (c_hour c) (c_min c) (c_sec c) = t) ->
-  forall t, os_time of_civil (os_date_t to_civil t) = t.
+  forall t, os_time of_civil (os_date_t to_civil t) = Some t.
 Proof. exact time_date_roundtrip_lemma. Qed.
 Print Assumptions time_date_roundtrip.
 
@@ -156,7 +156,7 @@ Theorem civil_inverse : forall t, let c := civil_of_unix t in
 Proof. exact civil_inverse_lemma. Qed.
 Print Assumptions civil_inverse.
 
-Theorem time_date_roundtrip_gregorian : forall t, os_time unix_of_civil (os_date_t civil_of_unix t) = t.
+Theorem time_date_roundtrip_gregorian : forall t, os_time unix_of_civil (os_date_t civil_of_unix t) = Some t.
 Proof. exact time_date_roundtrip_gregorian_lemma. Qed.
 Print Assumptions time_date_roundtrip_gregorian.
 
